@@ -215,3 +215,18 @@ def handle_before_start(ctx, rid="R5"):
         c.ob(rid, ok, f, "registered-before-start",
              "the child is in self._actors before its start() is awaited (stop() sweeps it)" if ok else
              "the invoked child is not registered in self._actors before its start() is awaited: parent.stop() during that await does not find it", st)
+    # the finally block tears the child down whenever there is a child (no zombie child interpreter after the state was left)
+    from sa.util import canon_atom, guards_at
+    fin_stops = [x for x in own_nodes(f.node) if isinstance(x, ast.Call) and isinstance(x.func, ast.Attribute) and x.func.attr == "stop"
+                 and isinstance(x.func.value, ast.Name) and in_finally(f, x) is not None]
+    if c.expect(rid, "stop of the child in the finally block", len(fin_stops), 1, f,
+                f"{f.short} no longer stops the invoked child in its finally block: once the invoking state is left the child interpreter keeps running"):
+        for x in fin_stops:
+            h = x.func.value.id
+            at = [canon_atom(a, pol) for a, pol in guards_at(f, x)]
+            allowed = {("is", "None", h, False), ("is", h, "None", False), ("truthy", h, "", True)}
+            extra = [t for t in at if t not in allowed]
+            c.ob(rid, not extra, f, f"finally-stops-child:{h}", "the finally block stops the child whenever one was created" if not extra else
+                 f"the stop of the child in the finally block is guarded by {extra}: a child that exists is not torn down on those paths and outlives "
+                 f"the state that invoked it", x)
+
